@@ -245,3 +245,8 @@ from harness.checks_incremental import IncrementalCheck  # noqa: E402
 CHECKS["C18"] = IncrementalCheck()
 CHECKS["C04"].mc_models = ("MC_Codec", "MC_Layout")
 CHECKS["C06"].mc_models = ("MC_Codec", "MC_Bits", "MC_Layout")
+
+
+from harness.checks_threads import ThreadsCheck  # noqa: E402
+
+CHECKS["C15"] = ThreadsCheck()
